@@ -164,6 +164,117 @@ def c18(tier, seed):
 CHECKS = {"C01": c01, "C02": c02, "C03": c03, "C04": c04, "C07": c07, "C15": c15, "C16": c16, "C17": c17, "C18": c18}
 
 
+def _split(prop, tier, seed, flavour, monitor, extra, workers=W, timeout=1500, level="exploration"):
+    exe = ensure_monitor(flavour, monitor)
+    argvs = [[exe, "--worker", str(i), "--workers", str(workers), "--seed", str(s)] + extra
+             for i, s in enumerate(_seeds(seed, workers))]
+    c = Check(prop, tier, seed, level)
+    for w in run_workers(argvs, timeout):
+        c.absorb(w)
+    return c
+
+
+def c11(tier, seed):
+    q = tier == "quick"
+    c = _split("C11", tier, seed, "rel", "tables_monitor", ["--randoms", str(150000 if q else 6000000)])
+    if not q:
+        _merge(c, _split("C11", tier, seed + 500, "asan", "tables_monitor", ["--randoms", "200000"]))
+    c.rule = ("EXHAUSTIVE: all 64 x 2^k subsets of the relevant blocker squares for bishop (5,248) and rook (102,400), each also with "
+              "random garbage outside the mask; every entry of KNIGHT_MASK, KING_MASK, RAYS, LINES, FULL_LINES; shift<> in all ten "
+              "directions; plus random full occupancies and pawn/king set functions; non-trivial = squares")
+    c.exhaustive = True
+    c.extra["explanation"] = "table part enumerated completely; random occupancies are additional sampling"
+    c.assumptions = ["geometry reference = coordinate walks written in harness/tables_monitor.cpp"]
+    need_r = 102400 * (1 if q else 2)
+    c.require("rook-subsets", need_r)
+    c.require("bishop-subsets", 5248 * (1 if q else 2))
+    c.require("leaper-line-table-entries", 8832)
+    return c.finish()
+
+
+def c12(tier, seed):
+    q = tier == "quick"
+    c = _split("C12", tier, seed, "rel" if q else "asan", "kpk_monitor", [])
+    c.rule = ("EXHAUSTIVE: every legal K+P v K position (both pawn colours, both sides to move; 2 x 331,352) - bitbase::check after "
+              "normalize, endgame::score and PositionScorer::score classification vs the oracle's retrograde solution; "
+              "non-trivial = every position")
+    c.exhaustive = True
+    c.assumptions = ["oracle/kpk.cpp retrograde solver over K+P+K, K+Q+K, K+R+K with the oracle move generator; fixed-point and "
+                     "textbook positions checked in the oracle self-test"]
+    c.require("kpk-positions", 662704)
+    return c.finish()
+
+
+def c20(tier, seed):
+    q = tier == "quick"
+    args = ["--randoms", str(60000 if q else 3000000), "--sweeps", str(600 if q else 40000)]
+    c = _split("C20", tier, seed, "rel", "time_monitor", args)
+    _merge(c, _split("C20", tier, seed + 500, "asan", "time_monitor", ["--randoms", str(20000 if q else 300000), "--sweeps",
+                                                                       str(200 if q else 4000)]))
+    # under UBSan an overflow / float-cast report IS the 'overflow or sign slip' of this property
+    for k in list(c.counters):
+        if k.startswith("sanitizer:ubsan:") and k.split(":")[2] in ("signed-overflow", "float-cast", "shift", "div-zero"):
+            c.add_violation("ubsan:" + k.split(":")[2], {"note": "UBSan report inside calculateTime workload", "count": c.counters[k]})
+    c.rule = ("grid over remaining time x increment x movestogo x ply x colour, random tuples, and monotone sweeps (200 increasing clock "
+              "values per (inc, movestogo, ply)); run in the -Ofast build users run and in the UBSan build; non-trivial = distinct random tuples")
+    c.assumptions = ["domain: time 0..24h ms, increment 0..10min, movestogo 0..200, ply 0..1000 (the property's quantifier)"]
+    c.require("grid-points", 1000000)
+    c.require("monotone-steps", 50000)
+    return c.finish()
+
+
+CHECKS.update({"C11": c11, "C12": c12, "C20": c20})
+
+
+def _eval(prop, tier, seed, flavour, games, synth, endgames, directed_workers=0, timeout=1500):
+    exe = ensure_monitor(flavour, "eval_monitor")
+    argvs = []
+    for i, sd in enumerate(_seeds(seed)):
+        a = [exe, "--prop", prop, "--seed", str(sd), "--games", str(games), "--plies", "140", "--synth", str(synth),
+             "--endgames", str(endgames)]
+        if i < directed_workers:
+            a += ["--directed", "--slot0", "2500000"]
+        argvs.append(a)
+    c = Check(prop, tier, seed)
+    for w in run_workers(argvs, timeout):
+        c.absorb(w)
+    return c
+
+
+def c13(tier, seed):
+    q = tier == "quick"
+    c = _eval("C13", tier, seed, "rel", games=40 if q else 1500, synth=3000 if q else 150000, endgames=150 if q else 6000)
+    _merge(c, _eval("C13", tier, seed + 500, "asan", games=6 if q else 100, synth=500 if q else 10000, endgames=20 if q else 400))
+    c.rule = ("score(P) == score(mirror(P)) for game positions, synthetic positions and every specialised endgame class with either "
+              "colour as the strong side (positions with insufficient material excluded per the statement); mismatches re-evaluated on "
+              "fresh evaluators before being reported; non-trivial = distinct positions")
+    c.assumptions = ["mirror() is the oracle's (ranks flipped, colours, rights, ep square and side swapped)"]
+    for cls in ["KPK", "KBPsKB", "KQKP", "KRKP", "KNNKP", "KQKRPs", "KBPsK", "KmmKm", "KXK"]:
+        c.require("class:%s:white-strong" % cls, 1000)
+        c.require("class:%s:black-strong" % cls, 1000)
+    return c.finish()
+
+
+def c14(tier, seed):
+    q = tier == "quick"
+    c = _eval("C14", tier, seed, "rel", games=30 if q else 1200, synth=3000 if q else 100000, endgames=200 if q else 8000,
+              directed_workers=6 if q else 16)
+    _merge(c, _eval("C14", tier, seed + 500, "asan", games=4 if q else 60, synth=400 if q else 5000, endgames=40 if q else 400))
+    c.rule = ("streams of positions evaluated on two long-lived evaluators (different order, random clear() points) and on fresh "
+              "evaluators; directed histories built at run time: two pawn structures sharing a cache slot (A-B-A, A-clear-B) and a pawn "
+              "structure in slot 0 followed by clear() and pawnless positions; |score| < win_in(MAX_DEPTH) on every evaluation incl. "
+              "extreme material; non-trivial = distinct positions evaluated twice")
+    c.assumptions = ["a brand-new PositionScorer is the history-free reference"]
+    c.require("directed:slot0-structure-found", 1)
+    c.require("directed:slot0-clear-pawnless", 3)
+    c.require("directed:A-B-A", 8)
+    c.require("clears", 100)
+    return c.finish()
+
+
+CHECKS.update({"C13": c13, "C14": c14})
+
+
 def setup():
     core.ensure_selftest()
     for fl in ("asan", "rel"):
